@@ -7,7 +7,13 @@ not return is a watchdog abort of the driver."""
 from checks.life import run_life
 
 
+C14_EVENTS = ("p_ev", "p_ev_off", "d_timer", "d_pipe_set", "d_connect", "d_connect_cb", "l_accept", "l_accept_cb")
+
+
 def concerns(sig, text):
+    if sig.startswith("life.trace:"):
+        # recorded life cycles: everything about close / reap / destroy / lookups / shutdown order (C14 keeps notifications and dialling)
+        return sig[len("life.trace:"):].split("-after-")[0] not in C14_EVENTS
     what = sig.rsplit(":", 1)[-1]
     return ("done" in what or "watchdog" in sig or ":exit-" in sig or ":asan" in sig or ":ubsan" in sig or ":panic" in sig
             or ".probe" in sig or (("close" in sig.split("-after-")[0]) and what.startswith("out")))
